@@ -147,6 +147,7 @@ def check(recipe) -> list[Fail]:
     if fails:
         return fails
     extra = itertools.count()
+    sources = []
     for step, op in enumerate(recipe["ops"]):
         name = op[0]
         nc = model.nc
@@ -155,6 +156,7 @@ def check(recipe) -> list[Fail]:
                 k = next(extra)
                 g = build_geom(_frame(base, k, na), op[1])
                 ens.append(g)
+                sources.append((g, np.array(g.coords, dtype=float), step))
                 model.coords = np.concatenate([model.coords.reshape((nc, na, 3)), np.asarray(g.coords, dtype=float)[None]], axis=0)
                 has_q = hasattr(g, "atomic_charges")
                 model.charges = np.concatenate([model.charges.reshape((nc, na)), (np.asarray(g.atomic_charges, dtype=float) if has_q else np.zeros(na))[None]], axis=0)
@@ -165,6 +167,7 @@ def check(recipe) -> list[Fail]:
             elif name == "extend":
                 m = 1 + op[2] % 3
                 geoms = [build_geom(_frame(base, next(extra), na), "Molecule") for _ in range(m)]
+                sources.extend((g_, np.array(g_.coords, dtype=float), step) for g_ in geoms)
                 if op[1] == "ensemble":
                     src = ml.ConformerEnsemble(geoms)
                     src.weights = np.arange(2.0, 2.0 + m)
@@ -318,6 +321,10 @@ def check(recipe) -> list[Fail]:
         fails = invariants(ens, model, step, name)
         if fails:
             return fails
+        # "nothing else changes": the geometries that were appended / extended from are not views of the ensemble
+        for (g, c0, when) in sources:
+            if not np.array_equal(np.asarray(g.coords, dtype=float), c0, equal_nan=True):
+                return [Fail(f"source-geometry-changed-by-later-operation:{name.split('[')[0]}", f"step {step} ({name}): the geometry handed to the ensemble at step {when} changed (max {np.nanmax(np.abs(np.asarray(g.coords, dtype=float) - c0)):.3g})")]
     return []
 
 
